@@ -133,6 +133,8 @@ func main() {
 		os.Exit(cmdShard(os.Args[2:]))
 	case "dethash":
 		os.Exit(cmdDetHash(os.Args[2:]))
+	case "minimise":
+		os.Exit(cmdMinimise(os.Args[2:]))
 	}
 	fmt.Fprintln(os.Stderr, "unknown command", os.Args[1])
 	os.Exit(2)
@@ -312,52 +314,58 @@ func cmdCheck(args []string) int {
 		for _, o := range fresh[1:] {
 			fmt.Printf("  also: %s (%d runs) :: %s\n", o.Sig, o.Count, o.Detail)
 		}
-		ropt := opt
-		// a failing case must reproduce on its own (single-threaded replay);
-		// a case that only failed because of interference between parallel
-		// runs (possible when the code under test has grown process-global
-		// state) is skipped in favour of the next recorded one
+		// Minimisation and the reproduction proof run in fresh child
+		// processes: a failing case must reproduce on its own, from a clean
+		// process, and a case that only failed because of interference
+		// between parallel runs (possible when the code under test has grown
+		// process-global state) is skipped in favour of the next recorded one.
 		cands := append([]*sim.Case{v.Case}, v.More...)
+		exe, _ := os.Executable()
 		var min *sim.Case
-		var tries int
 		var got *sim.Violation
-		for _, cand := range cands {
+		os.MkdirAll(replayDir(), 0o755)
+		for ci, cand := range cands {
 			if cand == nil {
 				continue
 			}
-			m, t := sim.Minimise(world, cand, v.Property, v.Sig, ropt, 60*time.Second)
-			rr := world.Replay(m, ropt)
-			for i := range rr.Violations {
-				if rr.Violations[i].Property == v.Property && rr.Violations[i].Sig == v.Sig {
-					got = &rr.Violations[i]
-				}
+			in := filepath.Join(replayDir(), fmt.Sprintf(".cand-%s-%d-%d.json", *p, cand.SubSeed, ci))
+			out := filepath.Join(replayDir(), fmt.Sprintf("%s-%d.json", *p, cand.SubSeed))
+			cand.Property = *p
+			cand.Seed = seed
+			cand.Expect = &sim.Expect{Property: v.Property, Signature: v.Sig}
+			if err := writeCase(in, cand); err != nil {
+				fmt.Fprintln(os.Stderr, "HARNESS-FAULT:", err)
+				return 2
 			}
-			min, tries = m, t
-			if got != nil {
-				v.Case = cand
-				break
+			ctx, cancel := context.WithTimeout(context.Background(), 4*time.Minute)
+			mo, merr := exec.CommandContext(ctx, exe, "minimise", in, out).CombinedOutput()
+			cancel()
+			os.Remove(in)
+			if merr != nil {
+				fmt.Printf("  candidate %d (sub-seed %d) does not reproduce on its own: %s\n", ci, cand.SubSeed, strings.TrimSpace(lastLine(string(mo))))
+				continue
 			}
+			// the replay must reproduce in yet another fresh process
+			ro, rerr := exec.Command(exe, "replay", out).CombinedOutput()
+			if rerr == nil || !strings.Contains(string(ro), "REPRODUCED") {
+				fmt.Printf("  candidate %d: minimised replay does not reproduce in a fresh process\n", ci)
+				os.Remove(out)
+				continue
+			}
+			b, _ := os.ReadFile(out)
+			var mc sim.Case
+			if json.Unmarshal(b, &mc) != nil || mc.Expect == nil {
+				continue
+			}
+			min = &mc
+			got = &sim.Violation{Property: mc.Expect.Property, Sig: mc.Expect.Signature, Detail: mc.Expect.Detail, Step: mc.Expect.Step}
+			replayPath = out
+			break
 		}
 		if got == nil {
-			fmt.Fprintf(os.Stderr, "HARNESS-FAULT: violation %q of run %d does not reproduce in the replay executor\n", v.Sig, v.FirstRun)
+			fmt.Fprintf(os.Stderr, "HARNESS-FAULT: violation %q (first seen in run %d) does not reproduce from a clean process in any of %d recorded cases\n", v.Sig, v.FirstRun, len(cands))
 			dump := filepath.Join(replayDir(), fmt.Sprintf("%s-%d-unreproduced.json", *p, v.Case.SubSeed))
 			writeCase(dump, v.Case)
-			return 2
-		}
-		min.Property = *p
-		min.Seed = seed
-		min.Expect = &sim.Expect{Property: got.Property, Signature: got.Sig, Detail: got.Detail, Step: got.Step}
-		min.Note = fmt.Sprintf("minimised from %d to %d steps in %d replays; original sub-seed %d (run %d of VERIF_SEED=%d)", len(v.Case.Steps), len(min.Steps), tries, v.Case.SubSeed, v.FirstRun, seed)
-		replayPath = filepath.Join(replayDir(), fmt.Sprintf("%s-%d.json", *p, v.Case.SubSeed))
-		if err := writeCase(replayPath, min); err != nil {
-			fmt.Fprintln(os.Stderr, "HARNESS-FAULT:", err)
-			return 2
-		}
-		// the replay must reproduce in a fresh process
-		exe, _ := os.Executable()
-		out, err := exec.Command(exe, "replay", replayPath).CombinedOutput()
-		if err == nil || !strings.Contains(string(out), "REPRODUCED") {
-			fmt.Fprintf(os.Stderr, "HARNESS-FAULT: replay file does not reproduce in a fresh process:\n%s\n", out)
 			return 2
 		}
 		fmt.Printf("  %s\n  steps: ", got.Detail)
@@ -520,4 +528,67 @@ func cmdDetHash(args []string) int {
 	}
 	fmt.Printf("dethash property=%s runs=%d seed=%d hash=%016x\n", *p, *runs, seed, h)
 	return 0
+}
+
+
+func lastLine(s string) string {
+	s = strings.TrimSpace(s)
+	if i := strings.LastIndex(s, "\n"); i >= 0 {
+		return s[i+1:]
+	}
+	return s
+}
+
+func worldOf(name string) sim.World {
+	for _, s := range props {
+		if s.WorldName == name {
+			return s.World()
+		}
+	}
+	return nil
+}
+
+// cmdMinimise: simcheck minimise <in> <out>. Shrinks the case in <in>
+// (which names the violation to preserve in its "expect" block) in this
+// fresh process and writes the minimised replay file. Exit 0 = written,
+// 3 = the case does not reproduce here.
+func cmdMinimise(args []string) int {
+	if len(args) < 2 {
+		return 2
+	}
+	b, err := os.ReadFile(args[0])
+	if err != nil {
+		fmt.Println("read:", err)
+		return 2
+	}
+	var c sim.Case
+	if err := json.Unmarshal(b, &c); err != nil || c.Expect == nil {
+		fmt.Println("bad case file")
+		return 2
+	}
+	w := worldOf(c.World)
+	if w == nil {
+		fmt.Println("unknown world", c.World)
+		return 2
+	}
+	opt := sim.Options{Property: c.Expect.Property, Tier: "thorough", Known: loadKnown(), Seed: c.Seed}
+	orig := len(c.Steps)
+	min, tries := sim.Minimise(w, &c, c.Expect.Property, c.Expect.Signature, opt, 60*time.Second)
+	rr := w.Replay(min, opt)
+	for _, v := range rr.Violations {
+		if v.Property == c.Expect.Property && v.Sig == c.Expect.Signature {
+			min.Property = c.Expect.Property
+			min.Seed = c.Seed
+			min.Expect = &sim.Expect{Property: v.Property, Signature: v.Sig, Detail: v.Detail, Step: v.Step}
+			min.Note = fmt.Sprintf("minimised from %d to %d steps in %d replays; original sub-seed %d of VERIF_SEED=%d", orig, len(min.Steps), tries, c.SubSeed, c.Seed)
+			if err := writeCase(args[1], min); err != nil {
+				fmt.Println("write:", err)
+				return 2
+			}
+			fmt.Println("minimised", orig, "->", len(min.Steps))
+			return 0
+		}
+	}
+	fmt.Println("the violation does not occur when the case is replayed in a clean process")
+	return 3
 }
